@@ -49,7 +49,7 @@ def gen_case(rng, tier):
             op['expr'] = {'kind': 'data', 'fact': rng.randrange(len(facts))}
         elif facts and x < 0.55:
             f = rng.randrange(len(facts))
-            op['expr'] = {'kind': 'instance', 'fact': f, 'base': rng.randrange(4)}
+            op['expr'] = {'kind': 'instance', 'fact': f, 'base': rng.randrange(4), 'wrong': rng.choice([0, 0, 0, 1, 2])}
         elif facts and x < 0.7:
             op['expr'] = {'kind': 'arith', 'fact': rng.randrange(len(facts)), 'var': rng.choice([0, 0, 1, 2, 3, 4, 5, 6])}
         else:
@@ -79,6 +79,9 @@ def expr_text(e, facts):
         t = chain[e['base'] % len(chain)]
         if f['kind'] == 'attribute':
             return '%s instance of attribute(*, %s)' % (f['path'], t)
+        if e.get('wrong') and not f.get('nil') and G.TYPES[f['type']][1] not in ('lex', 'union', 'intlist'):
+            # a type that is not in the chain: false, with or without an occurrence indicator
+            return '%s instance of element(*, xs:date%s)' % (f['path'], '?' if e['wrong'] == 2 else '')
         return '%s instance of element(*, %s%s)' % (f['path'], t, '?' if f.get('nil') else '')
     kind = G.TYPES[f['type']][1]
     if kind in ('int', 'Decimal', 'float'):
@@ -340,7 +343,14 @@ def run_case(case, world):
                     violate('TYPED_VALUE', 'typed-value-wrong-class:%s' % tkey,
                             'data() of %s (type %s) has classes %r' % (f['path'], G.TYPES[tkey][0],
                                                                         [type(x).__name__ for x in items]), feats + extra)
-        if sk == 'A' and built[0] and e['kind'] == 'instance' and cfg['facts'] and outcome[0] == 'ok' and ref == outcome:
+        if sk == 'A' and built[0] and e['kind'] == 'instance' and cfg['facts'] and outcome[0] == 'ok' and ref == outcome \
+                and e.get('wrong') and (text.endswith('element(*, xs:date)') or text.endswith('element(*, xs:date?)')) \
+                and G.TYPES[cfg['facts'][e['fact'] % len(cfg['facts'])]['type']][1] not in ('lex', 'union', 'intlist'):
+            if outcome[1] not in (['bool', False], [['bool', False]]):
+                f = cfg['facts'][e['fact'] % len(cfg['facts'])]
+                violate('TYPED_VALUE', 'instance-of-unrelated-type-true:%s' % f['type'], '%s is %r' % (text, outcome[1]),
+                        feats + ['type:' + f['type']])
+        elif sk == 'A' and built[0] and e['kind'] == 'instance' and cfg['facts'] and outcome[0] == 'ok' and ref == outcome:
             f = cfg['facts'][e['fact'] % len(cfg['facts'])]
             if G.TYPES[f['type']][2] and outcome[1] not in (['bool', True], [['bool', True]]) and not f.get('simple_content'):
                 extra = ['type:' + f['type']]
